@@ -387,7 +387,7 @@ func NewLMACWithPadding(creator func(key []byte) (cipher.Block, error), key []by
 }
 
 func (l *lmac) Size() int {
-	return l.b1.BlockSize()
+	return l.size
 }
 
 func (l *lmac) MAC(src []byte) []byte {
@@ -401,7 +401,7 @@ func (l *lmac) MAC(src []byte) []byte {
 	}
 	subtle.XORBytes(tag, tag, src[:blockSize])
 	l.b2.Encrypt(tag, tag)
-	return tag
+	return tag[:l.size]
 }
 
 type trCBCMAC struct {
